@@ -22,7 +22,9 @@ META = dict(
               "orbital energies, contraction coefficients (and coordinates for wfn/wfx/fchk) symbolic; exponents from a "
               "rational grid; the written text is read back with the real reader and both objects are compared as "
               "functions of space through their expansion in linearly independent normalised primitives",
-        thorough="adds f shells, 3 atoms, 4 shells, CCA conventions and the repository's wavefunction fixtures as sources"),
+        thorough="adds Cartesian f shells, a three-centre four-shell basis in unsorted order, CCA conventions, and 15 wavefunction "
+                 "files of the repository's corpus (fchk, wfn, wfx, mkl, molden, mwfn, cp2k) as conversion sources to all "
+                 "five targets: basis, occupations and conventions as loaded, all orbital coefficients and energies symbolic"),
     outside=["an independent parser of the written text is used for WFN only (job wfn-parse); for the other formats the "
              "decoder is the real reader, so a writer and reader that are wrong in the same way are not separated",
              "Molden/Molekel reload: the vendor-detection cascade is short-circuited to 'standard file' (its subject is "
@@ -34,6 +36,11 @@ META = dict(
     explanation="symbolic execution of dump_one (prepare_dump, convert_conventions, writers) and load_one on the result",
 )
 
+# small wavefunction files of the repository's corpus used as conversion sources (thorough tier)
+FIXTURE_SOURCES = ["h2o_sto3g.fchk", "ch3_hf_sto3g.fchk", "ch3_rohf_sto3g_g03.fchk", "he_spd_orbital.fchk", "li_h_3-21G_hf_g09.fchk",
+                   "h2o_sto3g.wfn", "he_spd_orbital.wfn", "lih_cation_uhf.wfn", "lih_cation_rohf.wfx", "h2_ub3lyp_ccpvtz.wfx",
+                   "h2_sto3g.mkl", "nh3_molden_cart.molden", "he2_ghost_psi4_1.0.molden", "ch3_hf_sto3g_fchk_multiwfn3.7.mwfn",
+                   "carbon_sc_ae_contracted.cp2k.out"]
 FILENAMES = dict(fchk="a.fchk", molden="a.molden", molekel="a.mkl", wfn="a.wfn", wfx="a.wfx")
 ATOMS = [(8, None), (1, None)]
 SHELLSETS = {
@@ -44,7 +51,10 @@ SHELLSETS = {
     "SP": [(0, [0, 1], ["c", "c"], 2), (1, [0], ["c"], 1)],
     "gen": [(0, [0, 0], ["c", "c"], 2), (1, [0], ["c"], 1)],
     "fcart": [(0, [3], ["c"], 1)],
+    # three centres, four shells stored in unsorted centre order, Cartesian and pure d
+    "big": [(2, [0], ["c"], 2), (0, [1], ["c"], 1), (1, [2], ["p"], 1), (0, [2], ["c"], 1)],
 }
+ATOMS3 = [(8, None), (1, None), (6, None)]
 
 
 def semantic(ctx, data):
@@ -63,7 +73,7 @@ def semantic(ctx, data):
     return out
 
 
-def same_orbitals(ctx, a, b, spin_strict=True):
+def same_orbitals(ctx, a, b, spin_strict=True, tol=1e-7):
     """Obligations: same orbitals (function of space, occupation, energy) per spin channel."""
     res = []
     for spin in "ab":
@@ -75,15 +85,32 @@ def same_orbitals(ctx, a, b, spin_strict=True):
             res.append((f"occupation-{spin}", ctx.approx(o1, o2, 1e-7), f"orbital {i}"))
             if e1 is not None and e2 is not None:
                 res.append((f"energy-{spin}", ctx.approx(e1, e2, 1e-7), f"orbital {i}"))
-            res.append((f"orbital-function-{spin}", _exp_close(ctx, x1, x2), f"orbital {i}"))
+            res.append((f"orbital-function-{spin}", _exp_close(ctx, x1, x2, tol), f"orbital {i}"))
     return res
 
 
-def _exp_close(ctx, e1, e2):
+def _snap(e1, e2, rel=2e-6):
+    """Re-key e2 on the exponents of e1 where they agree to the digits a format prints (concrete exponents only)."""
+    out = {}
+    k1 = list(e1)
+    for key, v in e2.items():
+        tgt = key
+        if key not in e1 and key[1][0] == "num":
+            for cand in k1:
+                if cand[0] == key[0] and cand[2:] == key[2:] and cand[1][0] == "num" and \
+                        abs(cand[1][1] - key[1][1]) <= rel * abs(cand[1][1]):
+                    tgt = cand
+                    break
+        out[tgt] = out[tgt] + v if tgt in out else v
+    return out
+
+
+def _exp_close(ctx, e1, e2, tol=1e-7):
+    e2 = _snap(e1, e2)
     parts = []
     for key in sorted(set(e1) | set(e2), key=repr):
         a, b = e1.get(key, 0.0), e2.get(key, 0.0)
-        r = ctx.approx(a, b, 1e-7, atol=1e-10)
+        r = ctx.approx(a, b, tol, atol=1e-10 if tol <= 1e-7 else 1e-8)
         if r is True:
             continue
         if r is False:
@@ -104,7 +131,7 @@ def h_convert(ctx, fmt="wfn", shells="sp", conv="own", twin=False, ecp=False):
                                ("restricted", "aminusb"), ("restricted", "aminusb-zero"), ("restricted", "hole")],
                               label="orbitals")
     allow = ctx.choice([False, True], label="allow_changes")
-    atoms = [(8, 6.0), (1, None)] if ecp else ATOMS
+    atoms = [(8, 6.0), (1, None)] if ecp else (ATOMS3 if shells == "big" else ATOMS)
     with stubbed(*mods):
         kw = wfobj.make_wf(ctx, atoms, SHELLSETS[shells], conv=convname, mo_kind=mo_kind, norb=2, occ=occ,
                            coords_sym=not heavy, contraction_sym=not heavy)
@@ -125,7 +152,7 @@ def h_convert(ctx, fmt="wfn", shells="sp", conv="own", twin=False, ecp=False):
         cls = f"{fmt},{shells},{conv}" + (",ecp" if ecp else "")
         if err is not None:
             # failing with an error is an allowed outcome; segmented / supported objects must not be refused
-            refusable = shells in ("SP", "gen", "dpure", "fcart") or (occ.startswith("aminusb") and (not allow or fmt == "fchk")) \
+            refusable = shells in ("SP", "gen", "dpure", "fcart", "big") or (occ.startswith("aminusb") and (not allow or fmt == "fchk")) \
                 or (occ == "hole" and fmt == "fchk")      # FCHK stores electron counts only: aufbau fillings
             ctx.oblige("supported-object-is-written", refusable or isinstance(err, PrepareDumpError) and not allow and shells in ("SP", "gen"),
                        cls=cls, detail=f"{type(err).__name__}: {err} / {err.__cause__!r}")
@@ -183,19 +210,101 @@ def h_convert(ctx, fmt="wfn", shells="sp", conv="own", twin=False, ecp=False):
                 ctx.oblige(label, f, cls=f"{cls},{mo_kind}/{occ}", detail=where)
 
 
+def h_convert_fixture(ctx, fn="h2o_sto3g.fchk", fmt="wfn"):
+    """A wavefunction file of the test corpus as conversion source: its basis, occupations and conventions as loaded,
+    all orbital coefficients and energies symbolic."""
+    import os
+    import iodata.api as api
+    import iodata.formats.molden as molden
+    from iodata.utils import DumpError, LoadError, PrepareDumpError
+    mods = rt._fmt_modules(fmt)
+    heavy = fmt in ("molden", "molekel")
+    with warnings.catch_warnings(record=True):
+        warnings.simplefilter("always")
+        src_obj = api.load_one(os.path.join(os.path.dirname(api.__file__), "test", "data", fn))
+    allow = ctx.choice([False, True], label="allow_changes")
+    with stubbed(*mods):
+        mo = src_obj.mo
+        shape = mo.coeffs.shape
+        # every coefficient and energy symbolic (exact travel through the text; the file's numbers are the replay defaults)
+        co = np.empty(shape, dtype=object if ctx.mode == "sym" else float)
+        for idx in np.ndindex(shape):
+            co[idx] = ctx.real(f"C{idx[0]}_{idx[1]}", lo=-3, hi=3, default=float(mo.coeffs[idx]))
+        mo.coeffs = co
+        if mo.energies is not None:
+            en = np.empty(mo.energies.shape, dtype=object if ctx.mode == "sym" else float)
+            for i in range(len(en)):
+                en[i] = ctx.real(f"E{i}", lo=-5000, hi=5000, default=float(mo.energies[i]))
+            mo.energies = en
+        data = src_obj
+        src = semantic(ctx, data)
+        path = ctx.tmp_path(FILENAMES[fmt])
+        with warnings.catch_warnings(record=True):
+            warnings.simplefilter("always")
+            try:
+                api.dump_one(data, path, allow_changes=allow)
+                err = None
+            except (PrepareDumpError, DumpError) as e:
+                err = e
+        cls = f"{fn}->{fmt}"
+        if err is not None:
+            # refusing is an allowed outcome; it must be a prepare-time refusal
+            ctx.oblige("refusal-is-a-PrepareDumpError", isinstance(err, PrepareDumpError), cls=cls, detail=f"{type(err).__name__}: {err}")
+            return
+        gate = molden._is_normalized_properly
+        if heavy:
+            molden._is_normalized_properly = lambda *a, **k: True
+        try:
+            with stubbed(*mods):
+                with warnings.catch_warnings(record=True):
+                    warnings.simplefilter("always")
+                    try:
+                        back = api.load_one(path)
+                        lerr = None
+                    except LoadError as e:
+                        lerr = e
+        finally:
+            molden._is_normalized_properly = gate
+        ctx.oblige("written-file-can-be-read-back", lerr is None, cls=cls, detail=f"{lerr} / {getattr(lerr, '__cause__', None)!r}")
+        if lerr is not None:
+            return
+        ctx.oblige("nuclei:atnums", list(back.atnums) == list(data.atnums), cls=cls)
+        ctx.oblige("nuclei:coordinates", ctx.approx(back.atcoords, data.atcoords, 1e-7, atol=2e-6), cls=cls)
+        dst = semantic(ctx, back)
+        if fmt == "wfn" and data.mo.kind == "unrestricted":
+            def flat(sem):
+                return {"a": sem["a"] + sem["b"], "b": []}
+            src, dst = flat(src), (flat(dst) if back.mo.kind == "unrestricted" else dst)
+        elif back.mo.kind != data.mo.kind:
+            ctx.oblige("orbital-kind", False, cls=cls, detail=f"{data.mo.kind} -> {back.mo.kind}")
+            return
+        if fmt in ("wfn", "wfx"):
+            # these formats keep occupied orbitals and whatever virtuals are listed: compare the orbitals that came back
+            pass
+        # concrete exponents and contraction coefficients of the fixture travel through the digits the format prints
+        # (7 significant digits for WFN exponents): agreement of the expansion coefficients to 1e-5
+        for label, f, where in same_orbitals(ctx, src, dst, tol=1e-5):
+            ctx.oblige(label, f, cls=cls, detail=where)
+
+
 def jobs(tier):
     M = "harness.c01"
     out = []
     fmts = ("fchk", "molden", "molekel", "wfn", "wfx")
     for fmt in fmts:
-        for shells in ("sp", "unsorted", "dcart", "dpure", "SP", "gen") + (("fcart",) if tier == "thorough" else ()):
-            for conv in ("own", "horton2", "revflip"):
+        for shells in ("sp", "unsorted", "dcart", "dpure", "SP", "gen") + (("fcart", "big") if tier == "thorough" else ()):
+            for conv in ("own", "horton2", "revflip") + (("cca",) if tier == "thorough" else ()):
                 if conv != "own" and shells in ("SP", "gen") and tier == "quick":
                     continue
                 out.append(job("C01", f"convert[{fmt},{shells},{conv}]", M, "h_convert", dict(fmt=fmt, shells=shells, conv=conv),
                                budget_s=300 if tier == "quick" else 2400, max_validate=2, oblige_timeout_ms=30000))
         out.append(job("C01", f"convert[{fmt},sp,own,ecp]", M, "h_convert", dict(fmt=fmt, shells="sp", conv="own", ecp=True),
                        budget_s=300, max_validate=2))
+    if tier == "thorough":
+        for fn in FIXTURE_SOURCES:
+            for fmt in fmts:
+                out.append(job("C01", f"fixture[{fn}->{fmt}]", M, "h_convert_fixture", dict(fn=fn, fmt=fmt), budget_s=1200,
+                               max_validate=2, oblige_timeout_ms=30000))
     out.append(job("C01", "convert[twin]", M, "h_convert", dict(fmt="wfn", shells="sp", conv="own", twin=True), expect="cex",
                    max_validate=0))
     return out
